@@ -69,7 +69,7 @@ def plan(ctx):
                        [('cat', 'A_CAT', 3, i, 32) for i in range(32)] +
                        ([('tokcore', 'A_TOK_CORE', 4, i, 96) for i in range(96)] if ctx.thorough else [])),
         ('shard_random', [('rnd', ctx.pick(1500, 40000), i) for i in range(16)]),
-        ('shard_mutations', [('mut', ctx.pick(4, 40), i) for i in range(16)]),
+        ('shard_mutations', [('mut', ctx.pick(4, 10), i) for i in range(16)]),
         ('shard_spaced', [('spaced', ctx.pick(300, 10000), i) for i in range(16)]),
         ('shard_runs', [('runs', i, 8) for i in range(8)]),
         ('shard_shrinking', [('shrink', i, 16) for i in range(16)]),
